@@ -54,3 +54,8 @@ CORPUS += [
 CORPUS += [
     M("reauthentication-dropped-assert-kept", L, "            await self.authenticate()\n\n            # Protocol should be authenticated now", "            # Protocol should be authenticated now"),
 ]
+# round 8 (C07.e): one exchange at a time per connection
+CORPUS += [
+    M("refresh-gathers-sends", "msmart/device/AC/device.py", "        responses = [\n            resp\n            for cmd in commands\n            for resp in await self._send_command_get_responses(cmd)\n        ]",
+      "        import asyncio\n        results = await asyncio.gather(*(self._send_command_get_responses(cmd) for cmd in commands))\n        responses = [resp for result in results for resp in result]"),
+]
